@@ -53,7 +53,11 @@ MANIFEST = {
             "ordered pair of distinct targets of one node / folder / access list (applications incl. every installable one, installed at run "
             "time by a preceding step; services; files; folders; NICs; users; ACL positions) - all same-type pairs of the types that change "
             "the inventory, a seeded sample of the other same-type and of the cross-type pairs in quick, all of them plus triples in thorough "
-            "- packed into episodes of the real environment; a failing episode is shrunk to a minimal sequence and action map.",
+            "- packed into episodes of the real environment; a failing episode is shrunk to a minimal sequence and action map. Families (f) one "
+            "well-formed instance of EVERY action type on the first node of every kind, run with the save_agent_actions / save_step_metadata / "
+            "save_agent_logs options ON (scratch directory) with a reset after every episode and a final close, and (g) the same instances with "
+            "each optional field omitted; in (e)-(g) the extra oracle 'a handler never mutates the request it was given' (the stored request "
+            "equals the re-formed one, types included).",
     "note": "C01-specific: Python exceptions inside handlers/observations/rewards and float overflow are outside the model; totality is "
             "validated by execution only (one or two blue disturbances per episode, one reset seed per scenario and run). Scenario families: "
             "shipped scenarios x generated action maps and members of the generated topology families (switched LAN, routed, firewall+DMZ) "
@@ -497,7 +501,7 @@ def _do_pairs_inner(rec: dict, unit: dict):
         return
     pcfg = plan.cfg()
     max_steps = unit["max_steps"]
-    max_len = max_steps + 3
+    max_len = max_steps + 8
     pcfg.setdefault("game", {})["max_episode_length"] = max_len
     eps = plan.episodes(max_steps)
     if unit.get("episode_cap") and len(eps) > unit["episode_cap"]:
@@ -506,9 +510,10 @@ def _do_pairs_inner(rec: dict, unit: dict):
     env = None
     history: List[Any] = []
     failed = 0
+    seen_sigs: set = set()
     for k, segs in enumerate(eps):
-        if failed >= 3:      # enough witnesses of this unit: the rest of its plan is not run (the check is red anyway)
-            _count(rec, f"pairs:{unit['label']}:episodes NOT run after three failing ones", len(eps) - k)
+        if failed >= 3 * max(1, len(seen_sigs)) or failed >= 24:      # enough witnesses: the rest of the plan is not run (the check is red anyway)
+            _count(rec, f"pairs:{unit['label']}:episodes NOT run after repeated failures", len(eps) - k)
             break
         if env is None:
             try:
@@ -522,13 +527,19 @@ def _do_pairs_inner(rec: dict, unit: dict):
         ops: List[Any] = [["reset", rng.fork(f"seed{k}").below(2 ** 31), None]]
         for sg in segs:
             ops += sg["ops"]
-        ops.append(0)
+        ops += [0] * (5 if unit["group"] in ("every", "optional") else 1)     # idle steps: effects that ripen a few ticks later (countdowns)
         if unit.get("io_on"):       # an episode's files are written by the NEXT reset (and by close()): keep every episode self-contained
             ops += [["reset", 1, None]] + ([0, ["close"]] if k == len(eps) - 1 else [])
         p = envrig.play(env, ops, max_len, announce=not history)
         history += ops
         desc = " | ".join(f"{sg['node']}:" + ">".join(f"{i}({t})" for i, t in sg["steps"]) for sg in segs[:3])
-        if p.fails:
+        sigs_now = {json.dumps(_sig(f), sort_keys=True) for f in p.fails}
+        if p.fails and sigs_now <= seen_sigs:
+            # the same defect class again (e.g. an open finding met on another node): counted, not minimised and reported a second time
+            _count(rec, "pairs:episodes-that-failed-again-with-an-already-reported-signature")
+            failed += 1
+        elif p.fails:
+            seen_sigs |= sigs_now
             kinds = {f["kind"] for f in p.fails}
             q = envrig.run_ops(pcfg, ops, max_len)
             if {f["kind"] for f in q.fails} & kinds:
